@@ -1375,7 +1375,7 @@ func main() {
 	}
 	budget, reserve := 40*time.Second, 1
 	if th {
-		budget, reserve = 12*time.Minute, 4
+		budget, reserve = 11*time.Minute, 4
 	}
 	if v, err := time.ParseDuration(os.Getenv("C01_E1_BUDGET")); err == nil && v > 0 {
 		budget = v // development knob: measure full tree sizes on a loaded machine
